@@ -81,6 +81,10 @@ pub enum Dev {
     PendingWrite(usize),
     FailWrite(usize),
     ShutdownAtWrite(usize),
+    /// Blocking provider: every read that delivers a segment takes this many
+    /// milliseconds of virtual time (a slow client); a message is complete in
+    /// time if its segments arrive within READ_MESSAGE_TIMEOUT of its start.
+    SlowReads(u64),
 }
 
 #[derive(Clone, Debug)]
@@ -109,6 +113,7 @@ fn dev_json(d: &Dev) -> Value {
         Dev::PendingWrite(n) => json!({"t": "pendingwrite", "n": n}),
         Dev::FailWrite(n) => json!({"t": "failwrite", "n": n}),
         Dev::ShutdownAtWrite(n) => json!({"t": "shutdownatwrite", "n": n}),
+        Dev::SlowReads(ms) => json!({"t": "slowreads", "n": ms}),
     }
 }
 
@@ -121,6 +126,7 @@ fn dev_from_json(v: &Value) -> Dev {
         "pendingwrite" => Dev::PendingWrite(n),
         "failwrite" => Dev::FailWrite(n),
         "shutdownatwrite" => Dev::ShutdownAtWrite(n),
+        "slowreads" => Dev::SlowReads(n as u64),
         _ => Dev::None,
     }
 }
@@ -198,6 +204,27 @@ fn tcp_expected(expected: &[Vec<u8>], bounds: &[usize], segs: &[Vec<u8>], dev: &
                 (expected[..n].concat(), ev != "error")
             }
         },
+        Dev::SlowReads(ms) => {
+            // Reference: per message a budget of READ_MESSAGE_TIMEOUT from the
+            // moment the provider starts on it; every segment costs `ms`; a
+            // read that cannot finish within what is left of the budget ends
+            // the connection. Data already buffered costs nothing.
+            let budget = READ_MESSAGE_TIMEOUT.as_millis() as u64;
+            let (mut have, mut seg, mut done) = (0usize, 0usize, 0usize);
+            'conn: while done + 1 < bounds.len() {
+                let mut t = 0u64;
+                while have < bounds[done + 1] {
+                    if seg == segs.len() || *ms >= budget - t {
+                        break 'conn;
+                    }
+                    t += ms;
+                    have += segs[seg].len();
+                    seg += 1;
+                }
+                done += 1;
+            }
+            (expected[..done.min(expected.len())].concat(), true)
+        }
         Dev::FailWrite(k) => (expected.iter().take(*k).cloned().collect::<Vec<_>>().concat(), *k >= expected.len()),
         Dev::ShutdownAtWrite(k) => (expected.iter().take(*k + 1).cloned().collect::<Vec<_>>().concat(), true),
     }
@@ -227,6 +254,7 @@ fn run_tcp_blocking(server: &Arc<Server<srv::Cat>>, segs: &[Vec<u8>], dev: &Dev,
             Dev::MaxWrite(n) => s.max_write = Some(*n),
             Dev::EintrWrite(n) => s.eintr_write_at = Some(*n),
             Dev::FailWrite(n) => s.fail_write_at = Some(*n),
+            Dev::SlowReads(ms) => s.read_latency = Some(Duration::from_millis(*ms)),
             Dev::ShutdownAtWrite(n) => {
                 let (g, n) = (group.clone(), *n);
                 s.on_write = Some(Box::new(move |i| {
@@ -607,6 +635,12 @@ fn tcp_cases(menu: &[(&str, Vec<u8>)], quick: bool) -> Vec<TcpCase> {
                 }
                 for n in [1usize, 2, 3, 7] {
                     devs.push(Dev::MaxWrite(n));
+                }
+                if !tokio {
+                    // slow clients: 1.5 s and 2.6 s per segment (never equal
+                    // to what is left of the 5 s budget)
+                    devs.push(Dev::SlowReads(1500));
+                    devs.push(Dev::SlowReads(2600));
                 }
                 for dev in devs {
                     cases.push(TcpCase { tokio, batch: batch.clone(), cuts: cuts.clone(), dev });
